@@ -46,6 +46,8 @@ def check(chk, fx):
     c08.gct(chk, fx)
     lexrules.iter_rule(chk, fx)
     lexrules.charidx(chk, fx)
+    from .. import stdexrules
+    stdexrules.bitset(chk, fx)       # character classes / item and FIRST sets live in cbitset
     lexrules.tag(chk, fx)
     lexrules.lenw(chk, fx)
     tix.report(chk, fx)
@@ -173,6 +175,8 @@ def prio(chk, fx):
 
 
 def ws(chk, fx):
+    from .. import pathsig as PS
+    from ..lr import _drop_noise
     chk.rule("WS", "whitespace skipping", 5)
     f = first_inst(fx, P + "skip_whitespace")
     cn = Canon(f)
@@ -236,23 +240,27 @@ def ws(chk, fx):
         chk.violation("WS", lsite, "WS:loop:advance-condition",
                       "the scan advances under %s; required: not at the end of the buffer and the byte is in the table" %
                       [sorted(x) for x in adv_conds])
-    # find_char: terminator tested before the comparison
+    # find_char: a position is returned only for a byte that is not the terminator and equals the searched byte;
+    # 'not found' once the terminator is reached — so searching for NUL never finds the table's own terminator
     g = first_inst(fx, "ctpg::utils::find_char")
     cg = Canon(g)
     flow.assert_structured(g)
-    loops = [n for n in walk(g.body) if n.get("k") == "WhileStmt"]
-    if len(loops) != 1 or cg.c(loops[0]["cond"]) != "*$1":
-        chk.violation("WS", A.site(g), "WS:find_char:terminator-first",
-                      "find_char does not test the terminator (*str) before comparing: searching for NUL finds the "
-                      "terminator, so a NUL byte in the input counts as white space")
+    gc, gn = PS.event_conditions(cg, g.body, unroll=1, drop=_drop_noise)
+    pos_rets = [(t, c) for (k, t), c in gc.items() if k == "return" and t not in ("uninitialized",)]
+    nf = gc.get(("return", "uninitialized"))
+    problems = []
+    if not pos_rets:
+        problems.append("never returns a position")
+    for t, c in pos_rets:
+        if not PS.implies(c, [("*$1", True), ("(*$1 == $0)", True)]) and not PS.implies(c, [("*$1", True), ("($0 == *$1)", True)]):
+            problems.append("returns %s when %s: the terminator is not excluded before the comparison, so searching for "
+                            "NUL finds the terminator and a NUL byte of the input counts as white space" % (t, PS.show(c)[:120]))
+    if nf is None:
+        problems.append("never reports 'not found'")
+    if problems:
+        chk.violation("WS", A.site(g), "WS:find_char", "; ".join(problems))
     else:
-        ev = [(k, t, g2) for k, t, g2, n in _events(g, cg)]
-        rets = sorted((t, g2) for k, t, g2 in ev if k == "return")
-        if rets == [("?i", ("(*$1 == $0)",)), ("uninitialized", ())] or \
-                [r[0] for r in rets] == ["?i", "uninitialized"] and rets[0][1] == ("(*$1 == $0)",):
-            chk.ok("WS", A.site(g), "find_char: while (*str) { if (*str == c) return i; ... } return 'not found'")
-        else:
-            chk.violation("WS", A.site(g), "WS:find_char:returns", "find_char returns %s" % rets)
+        chk.ok("WS", A.site(g), "find_char returns a position only for a non-terminator byte equal to the searched one")
     # the skip is performed iff options.skip_whitespace
     h = first_inst(fx, P + "get_current_term")
     ch = Canon(h)
